@@ -107,6 +107,13 @@ class Layout:
             if s["d"]["l"] == 0 and s["r"].get("k") == "use" and s["r"]["op"].get("k") == "move":
                 buf = s["r"]["op"]["pl"]["l"]
         if buf is None:
+            # `fn f(..) -> Vec<u8> { g(..) }`: the payload is built by another generator - inline it
+            for p_ in g["pred"][R] + [R]:
+                t = b["blocks"][p_].get("t") or {}
+                if t.get("k") == "call" and t.get("d") and t["d"]["l"] == 0 and not t["d"].get("p"):
+                    ex = self.expand_call(t)
+                    if ex is not None:
+                        return ex
             raise CheckerError(f"layout: cannot find the returned buffer in {b['path']}")
         # any loop => not a straight-line builder
         order = self._rpo(g)
@@ -115,8 +122,13 @@ class Layout:
         if len(init) != 1:
             raise CheckerError(f"layout: buffer of {b['path']} has {len(init)} initialisations")
         kind, r, bb0, _ = init[0]
-        first = self.call(r, 0) if kind == "call" else self.operand(r.get("op", {}), 0)
-        tokens.append((first, not (R in g["dom"] and bb0 in g["dom"][R])))
+        opt0 = not (R in g["dom"] and bb0 in g["dom"][R])
+        ex = self.expand_call(r) if kind == "call" else None
+        if ex is not None:
+            tokens.extend((tok, o or opt0) for tok, o in ex)
+        else:
+            first = self.call(r, 0) if kind == "call" else self.operand(r.get("op", {}), 0)
+            tokens.append((first, opt0))
         mutrefs = {}
         for blk in b["blocks"]:
             for s in blk["s"]:
@@ -134,6 +146,22 @@ class Layout:
                 else:
                     raise CheckerError(f"layout: unrecognised mutation of the payload buffer in {b['path']}: {p}")
         return tokens
+
+    def expand_call(self, t, depth=0):
+        """A payload generator that starts from (or returns) the output of another payload generator of the workspace: the callee's
+        token sequence with its parameters replaced by the actual arguments. None when the callee is not such a generator."""
+        f = t.get("f") or {}
+        if f.get("k") != "fn" or depth > 3:
+            return None
+        p = f["fn"].get("rpath", f["fn"]["path"])
+        cb = self.fb.bodies.get(f["fn"].get("rkey", f["fn"]["key"]))
+        if cb is None or not re.search(r"crypto::generate_\w*payload\w*$", p):
+            return None
+        sub = Layout(self.fb, cb).sequence()
+        actual = [self.operand(x) for x in t["a"]]
+        def subst(tok):
+            return re.sub(r"\barg(\d+)\b", lambda m_: actual[int(m_.group(1)) - 1] if int(m_.group(1)) - 1 < len(actual) else m_.group(0), tok)
+        return [(subst(tok), o) for tok, o in sub]
 
     def _rpo(self, g):
         seen, out = set(), []
